@@ -362,6 +362,9 @@ impl<'a> Gen<'a> {
                     Val::Usize(if self.rng.chance(1, 2) { usize::MAX } else { self.rng.below(12) })
                 } else if op.fname == "fmt_spec" {
                     Val::Usize(self.rng.below(crate::ops::N_FMT_SPECS))
+                } else if op.fname.ends_with("_n") {
+                    // the iterator length (index into ITER_LENS): mostly short, one in four from the whole list
+                    Val::Usize(if self.rng.chance(1, 4) { self.rng.below(crate::ops::ITER_LENS.len()) } else { self.rng.below(crate::c18p::ITER_LENS_SMALL) })
                 } else {
                     Val::Usize(self.rng.below(idx_limit.max(1)))
                 }
@@ -538,12 +541,25 @@ pub fn grid_cases(takers: &[usize]) -> Vec<(usize, usize, usize, usize, usize)> 
                     }
                 }
             }
+            // structured operands (identity / singular / rotation / permutation matrices, identity and half-turn
+            // quaternions, axis-aligned and unit vectors, plain scalars: the product over the arguments, the same lists
+            // the C18 sweep uses): the branches taken only for exactly such values, under four hidden-lane classes each
+            let total = crate::c18p::structured_total(&OPS[oi]);
+            for combo in 0..total.min(MAX_STRUCTURED) {
+                for j in 0..4 {
+                    let pc = [0, 13, 11, (combo * 7 + 3) % (POISON_CLASSES.len() + 3)][j];
+                    v.push((oi, pos, pc, (combo + j) % ROUTES.len(), OC_STRUCTURED + combo));
+                }
+            }
         }
     }
     v
 }
 
-const N_RELATIONS: usize = 8;
+/// 8 (factor, shape) relations x 4 lane rotations of the shape (which lane is the smallest / largest selects sub-branches)
+const N_RELATIONS: usize = 32;
+const MAX_STRUCTURED: usize = 160;
+const OC_STRUCTURED: usize = 3 + NUM_F_LATTICE + N_RELATIONS;
 
 fn same_type_args(op: &OpDesc) -> bool {
     op.args.iter().enumerate().any(|(i, t)| is_float_glam(t) && op.args.iter().skip(i + 1).any(|u| u == t))
@@ -567,7 +583,9 @@ fn related(v: &Val, rel: usize) -> Val {
 /// non-splat base shapes: rel < 5 uses |x| > |y|, rel >= 5 the other way round
 fn base_shape(t: TyId, rel: usize) -> Val {
     let n = t.n();
-    let lanes: Vec<f64> = (0..n).map(|i| if rel < 5 { [3.0, 1.0, -2.0, 0.5][i % 4] } else { [0.75, -4.0, 1.5, 2.0][i % 4] } + (i / 4) as f64).collect();
+    let rot = (rel / 8) % n.max(1);
+    let rel = rel % 8;
+    let lanes: Vec<f64> = (0..n).map(|i| { let i = (i + n - rot) % n; (if rel < 5 { [3.0, 1.0, -2.0, 0.5][i % 4] } else { [0.75, -4.0, 1.5, 2.0][i % 4] }) + (i / 4) as f64 }).collect();
     let bits: Vec<u64> = lanes.iter().map(|x| if t.elem() == Elem::F32 { (*x as f32).to_bits() as u64 } else { x.to_bits() }).collect();
     t.from_bits(&bits)
 }
@@ -575,7 +593,7 @@ fn base_shape(t: TyId, rel: usize) -> Val {
 pub fn gen_grid_program(seed: u64, case: (usize, usize, usize, usize, usize), idx: u64) -> Program {
     let (oi, pos, pc, route, oc) = case;
     let mut rng = Rng::new(seed, "c08-grid", idx);
-    let rel = if oc >= 3 + NUM_F_LATTICE { Some(oc - 3 - NUM_F_LATTICE) } else { None };
+    let rel = if oc >= 3 + NUM_F_LATTICE && oc < OC_STRUCTURED { Some(oc - 3 - NUM_F_LATTICE) } else { None };
     let cls = match oc {
         0 => Cls::Ordinary,
         1 => Cls::Mix,
@@ -596,6 +614,17 @@ pub fn gen_grid_program(seed: u64, case: (usize, usize, usize, usize, usize), id
                         g.init[i].1 = if i == bi { base.clone() } else { related(&base, rel) };
                     }
                 }
+            }
+        }
+    }
+    if oc >= OC_STRUCTURED {
+        let total = crate::c18p::structured_total(op);
+        // a stride walk through the product when it is larger than the budget, so that late arguments vary too
+        let combo = if total <= MAX_STRUCTURED { oc - OC_STRUCTURED } else { ((oc - OC_STRUCTURED) as u64 * 0x9E37_79B1 % total as u64) as usize };
+        let vals = crate::c18p::structured_args_enum(op, combo, g.rng);
+        for (i, v) in vals.into_iter().enumerate() {
+            if matches!(&op.args[i], Ty::G(_) | Ty::S(Elem::F32) | Ty::S(Elem::F64)) && crate::c18p::structured_count(&op.args[i]) > 0 {
+                g.init[i].1 = v;
             }
         }
     }
